@@ -210,5 +210,9 @@ package router
 // but refused by the sequence check, so unsealedBy is nil - runs through the whole handler like a fresh one and
 // reaches AddRoute - see /verif/KNOWN_FINDINGS.txt, C07 "duplicate announcement changes the routing table".)
 //@   callsite m.RoutingTable.AddRoute duplicate-announcements-leave-the-routing-table-alone [C07]: f.unsealedBy != nil
+// (The next clause FAILS on the current code: the handler never looks at the state of the link the frame came in on;
+// a frame read before its link closed and handled afterwards re-creates a route via the vanished peer - see
+// /verif/KNOWN_FINDINGS.txt, C16 "route via a link that is already gone".)
+//@   callsite m.RoutingTable.AddRoute next-hop-link-is-still-up [C16]: !recvLink.IsClosing()
 //@   callsite m.RoutingTable.AddRoute deliverer-is-outermost-signer [C08]: f.src.IsValid() && (len(hops) == 0 ==> f.src == recvLink.Peer()) && (len(hops) > 0 ==> hops[0].Router == recvLink.Peer())
 //@   callsite m.RoutingTable.AddRoute route-to-origin-via-deliverer [C08]: arg1.DstIP == f.src && arg1.NextHop == recvLink.Peer() && len(arg1.Path.Hops) == len(hops) + 2
